@@ -805,6 +805,31 @@ func (e *Env) call(x *ECall) CV {
 		}
 		e.st = out
 		return cvOf(vals[0])
+	case "unchanged":
+		// unchanged("T"): every object (or map) of type T has the contents it
+		// had in the pre-state - equality of the whole heaps, no quantifier
+		id, ok := x.Args[0].(*EStr)
+		if !ok || e.old == nil {
+			unsupp("contract: unchanged(\"T\") needs a type name and a two-state context")
+		}
+		sh := shapeOf(e.resolveTypeExpr(id.V))
+		var eqs []T
+		if sh.kind == KMap {
+			has, val, hasSort, valSorts, _ := mapHeaps(sh)
+			eqs = append(eqs, eq(fx.heapTerm(e.st, has[0], arrSort(hasSort)), fx.heapTerm(e.old, has[0], arrSort(hasSort))))
+			for c := range val {
+				eqs = append(eqs, eq(fx.heapTerm(e.st, val[c], arrSort(valSorts[c])), fx.heapTerm(e.old, val[c], arrSort(valSorts[c]))))
+			}
+			eqs = append(eqs, eq(fx.heapTerm(e.st, "ML|"+sh.key, arrSort(sInt)), fx.heapTerm(e.old, "ML|"+sh.key, arrSort(sInt))))
+		} else {
+			if sh.kind == KSlice {
+				sh = &Shape{kind: KArr, elem: sh.elem, n: -1, key: "[?]" + sh.elem.key}
+			}
+			for c := 0; c < sh.ncomp(); c++ {
+				eqs = append(eqs, eq(fx.heapTerm(e.st, heapName(sh, c), heapSort(sh, c)), fx.heapTerm(e.old, heapName(sh, c), heapSort(sh, c))))
+			}
+		}
+		return CV{k: cvBool, t: and(eqs...)}
 	case "allocated":
 		// the reference denotes an object that exists in the current state
 		a := arg(0)
@@ -1080,7 +1105,7 @@ func (e *Env) call(x *ECall) CV {
 		for i, n := range a.v.sh.elem.fnames {
 			if n == fs.V {
 				fsh := a.v.sh.elem.fields[i]
-				code := app("+", embBase, app("*", a.v.ts[0], "64"), num(int64(i)))
+				code := fx.embAddr(a.v.ts[0], i)
 				return cvOf(Val{sh: &Shape{kind: KPtr, elem: fsh, key: "*" + fsh.key}, ts: []T{code}})
 			}
 		}
@@ -1093,7 +1118,7 @@ func (e *Env) call(x *ECall) CV {
 			unsupp("contract: owner(pointer, \"T\")")
 		}
 		t := e.resolveType(ts.V)
-		return cvOf(Val{sh: shapeOf(types.NewPointer(t)), ts: []T{app("div", sub(a.v.ts[0], embBase), "64")}})
+		return cvOf(Val{sh: shapeOf(types.NewPointer(t)), ts: []T{fx.embOwner(a.v.ts[0])}})
 	case "keyid":
 		// keyid(v): the identity under which v is a map key (content id for strings)
 		a := arg(0)
